@@ -81,4 +81,12 @@ def Tx.rollback (F : Facts) (t : Tx K V) : Tx K V :=
 def Tx.commit (F : Facts) (t : Tx K V) (ok : Bool) : Tx K V :=
   if ok || !F.commitKeepsSnapshotOnError then { t with snapshot := none } else t
 
+/-- `Vacuum` on a table whose live tree is clean: the live tree becomes the vacuumed one
+    (`vac`), the storage of the tree from before is deleted, and — when the repair is in place
+    (`vacuumRepointsSnapshot`) — so does the snapshot of an open transaction.  `gone t` says that
+    tree `t` refers to deleted storage afterwards. -/
+def Tx.vacuum (F : Facts) (vac : Table K V → Table K V) (t : Tx K V) : Tx K V :=
+  { live := vac t.live,
+    snapshot := if F.vacuumRepointsSnapshot then t.snapshot.map fun _ => vac t.live else t.snapshot }
+
 end S3db.Txn
